@@ -52,8 +52,8 @@ type Case struct {
 	Kind string `json:"kind"`
 	// Content: consume = the bytes on the stream; produce = the source bytes; roundtrip = the text
 	// every string-like member of the value is built from. The effective content is Content x Rep.
-	Content mon.Q `json:"content"`
-	Rep     int   `json:"rep,omitempty"`
+	Content mon.Q  `json:"content"`
+	Rep     int    `json:"rep,omitempty"`
 	Num     string `json:"num,omitempty"` // JSON number literal for json.Number members
 	Pre     mon.Q  `json:"pre,omitempty"` // prior content of a pre-populated destination
 	Close   bool   `json:"close,omitempty"`
@@ -64,6 +64,9 @@ type Case struct {
 	W    Script `json:"w"`
 	O    Script `json:"o"`
 	DBuf int    `json:"dbuf,omitempty"`
+	// Warm: number of earlier Consume calls made on the SAME codec instance (other content, other
+	// destination of the same kind) before the judged call; their results must survive it.
+	Warm int `json:"warm,omitempty"`
 }
 
 func (c *Case) content() []byte {
@@ -173,7 +176,7 @@ func (c *Case) fp(dir string) string {
 	if len(c.Pre) > 0 {
 		pre = "pre"
 	}
-	return strings.Join([]string{c.Codec, dir, c.Kind, pre, c.R.class(n), c.W.class(n), c.O.class(n), fmt.Sprint(c.Close)}, "|")
+	return strings.Join([]string{c.Codec, dir, c.Kind, pre, c.R.class(n), c.W.class(n), c.O.class(n), fmt.Sprint(c.Close), fmt.Sprint(c.Warm)}, "|")
 }
 
 func maxInt(a, b int) int {
@@ -234,8 +237,35 @@ func runByteConsume(m *mon.M, c *Case) {
 	}
 	r := newReader(data, c.R)
 	cons := consumerOf(c)
+	// earlier calls on the same instance: their stored results must not be touched by later calls
+	type earlier struct {
+		d    dest
+		want []byte
+	}
+	var warm []earlier
+	for i := 0; i < c.Warm && d.supported; i++ {
+		wd, ok := mkDest(c.Codec, c.Kind, nil, Script{}, c.DBuf)
+		if !ok {
+			break
+		}
+		wdata := append([]byte(fmt.Sprintf("earlier-call-%d:", i)), bytes.ToUpper(data)...)
+		var werr error
+		if pv, _ := mon.Catch(func() { werr = cons.Consume(newReader(wdata, Script{}), wd.v) }); pv != nil || werr != nil {
+			break
+		}
+		warm = append(warm, earlier{wd, wdata})
+	}
 	var err error
 	pv, st := mon.Catch(func() { err = cons.Consume(r, d.v) })
+	for i, w := range warm {
+		if w.d.get != nil && !bytes.Equal(w.d.get(), w.want) {
+			m.Violate("earlier-result-altered-by-later-call/"+c.Codec, fmt.Sprintf("%s Consume into %s: the value stored by call #%d (%s) reads %s after a later call on the same consumer stored %s", c.Codec, c.Kind, i+1, short(w.want), short(w.d.get()), short(data)), c)
+			return
+		}
+	}
+	if len(warm) > 0 {
+		m.Class("consumer-instance-reused")
+	}
 	m.NT(c.fp("consume"))
 	m.Class(c.Codec + "/consume/" + kindClass(c.Kind))
 	m.Class("content/" + contentClass(data))
